@@ -80,6 +80,16 @@ def discharge(item, timeout_ms, second_opinion=False):
     r, m, dt = Z.check(asserts, timeout_ms, want_model=True)
     item.seconds = dt
     item.by = 'z3-%s' % z3.get_version_string()
+    if r == 'unknown':
+        # cone-of-influence slice: only what shares symbols with the negated goal
+        neg = Z.Not(item.goal)
+        sl = Z.cone(Z.AXIOMS.terms() + list(item.assertions), [neg])
+        if len(sl) < len(asserts) - 1:
+            r2, m2, dt2 = Z.check(sl + [neg], timeout_ms, want_model=True)
+            item.seconds += dt2
+            if r2 != 'unknown':
+                r, m = r2, m2
+                item.by += ' (cone-of-influence slice %d/%d)' % (len(sl), len(asserts) - 1)
     if r == 'unknown' and (second_opinion or item.backend == 'strings'):
         # second back end on the dump: cvc5 for the string fragment, old z3 otherwise
         try:
@@ -118,6 +128,42 @@ def discharge(item, timeout_ms, second_opinion=False):
     return item
 
 
+def discharge_all(items, timeout_ms, second_opinion=False):
+    """Discharge a list of items, first trying runs of consecutive obligations of
+    one exit point (pc_k+1 == pc_k + [goal_k]) with a single query for their
+    conjunction; falls back to one query per obligation when that fails."""
+    i = 0
+    n = len(items)
+    while i < n:
+        it = items[i]
+        if it.result is not None or it.assertions is None:
+            i += 1
+            continue
+        j = i + 1
+        while j < n and items[j].result is None and items[j].assertions is not None \
+                and len(items[j].assertions) == len(items[j - 1].assertions) + (0 if Z.is_true(items[j - 1].goal) else 1) \
+                and (len(items[j].assertions) == 0 or Z.is_true(items[j - 1].goal)
+                     or items[j].assertions[-1].eq(items[j - 1].goal)) \
+                and all(a.eq(b) for a, b in zip(items[j].assertions[:3], items[i].assertions[:3])):
+            j += 1
+        run = items[i:j]
+        if len(run) >= 3:
+            goals = [x.goal for x in run if not Z.is_true(x.goal)]
+            if goals:
+                r, m, dt = Z.check(Z.AXIOMS.terms() + list(run[0].assertions) + [Z.Not(Z.And(*goals))],
+                                   timeout_ms, want_model=False)
+            else:
+                r, dt = 'unsat', 0.0
+            if r == 'unsat':
+                for x in run:
+                    x.result, x.by, x.seconds = 'discharged', 'z3-%s (conjunction of %d exit obligations)' % (z3.get_version_string(), len(run)), dt / len(run)
+                i = j
+                continue
+        for x in run:
+            discharge(x, timeout_ms, second_opinion)
+        i = j
+
+
 class PropertyCheck(object):
     """Collects everything one property needs; subclasses/instances are built
     by the per-property files under /verif/props/."""
@@ -148,6 +194,8 @@ class PropertyCheck(object):
 
     def add_functions(self, E, targets):
         for t in targets:
+            if getattr(self, 'canary_mode', False) and any(it.result not in (None, 'discharged') for it in self.items):
+                return      # a canary needs one failing obligation only
             c = E.contracts.get(t)
             if c is None:
                 self.undecided.append(('no contract registered for %s' % t, None, t))
@@ -175,6 +223,8 @@ class PropertyCheck(object):
     def _add_parallel(self, E, t, c):
         from . import par
         tmo = THOROUGH_TIMEOUT_MS if self.tier == 'thorough' else QUICK_TIMEOUT_MS
+        if getattr(self, 'canary_mode', False):
+            tmo = 3000
         try:
             info, records, undec, errors, paths = par.verify_parallel(
                 E, t, tmo, self.pid if self.props_mod is not None else None, here=HERE)
@@ -204,7 +254,8 @@ class PropertyCheck(object):
         tmo = 10000
         funcs = {}
         for it in self.items:
-            if it.result == 'unknown' and it.kind == 'K' and it.extra.get('target'):
+            if it.result == 'unknown' and it.kind == 'K' and it.extra.get('target') \
+                    and not E.contracts[it.extra['target']].heavy:
                 funcs.setdefault(it.extra['target'], []).append(it)
         for target, its in funcs.items():
             found = {}
@@ -259,9 +310,7 @@ class PropertyCheck(object):
     # -- solving -------------------------------------------------------------------
     def solve(self):
         tmo = THOROUGH_TIMEOUT_MS if self.tier == 'thorough' else QUICK_TIMEOUT_MS
-        for it in self.items:
-            if it.result is None:
-                discharge(it, tmo, second_opinion=(self.tier == 'thorough'))
+        discharge_all(self.items, tmo, second_opinion=(self.tier == 'thorough'))
         if self.E is not None and any(it.result == 'unknown' for it in self.items):
             self.refute_ground(self.E, (0, 1, 2) if self.tier == 'quick' else (0, 1, 2, 3))
         unk = [it for it in self.items if it.result == 'unknown']
@@ -508,6 +557,7 @@ def run_canaries(pc, props_mod, limit=None):
                 f.write(text.replace(can['old'], can['new'], 1))
             sub = PropertyCheck(pc.pid, pc.tier, pc.seed)
             sub.props_mod = props_mod
+            sub.canary_mode = True
             try:
                 E = sub.engine(tmp)
                 props_mod.build(sub, E, canary=can)
